@@ -356,5 +356,195 @@ Proof.
   exact (Hr kb (Nat.lt_succ_diag_r _) (start F) qf [] [] t Rn AW A).
 Qed.
 
+(* ================= soundness: whatever the engine accepts is a derivation =================
+   Additional table facts: every plan comes from a terminal arc or from a nonterminal arc followed by a first chain,
+   and nonterminal arcs name rules of the grammar. *)
+Hypothesis plans_sound : forall q a q' ch, plans q a = Some (q', ch) ->
+  (ch = [] /\ arcT q a = Some q') \/ (exists B, arcN q B = Some q' /\ first_chain B a ch).
+Hypothesis arcN_valid : forall q B q', arcN q B = Some q' -> validR B.
+
+(* frames decorated with the derivations of their nodes *)
+Definition dframe := (St * list dtree)%type.
+Definition erase1 (f : dframe) : frame := (fst f, map collapse (snd f)).
+Definition erase (st : list dframe) : list frame := map erase1 st.
+
+Lemma erase_cons q ks rest : erase ((q, ks) :: rest) = (q, map collapse ks) :: erase rest.
+Proof. reflexivity. Qed.
+
+Section Sound.
+Variable S0 : Rl.
+Hypothesis S0_valid : validR S0.
+
+(* pend = the rule of the frame directly above: its nonterminal arc has already been taken in this frame's state *)
+Definition frame_ok (pend : option Rl) (R : Rl) (f : dframe) : Prop :=
+  all_wf (snd f) /\
+  match pend with
+  | None => run (start R) (snd f) = Some (fst f)
+  | Some B => exists qpre, run (start R) (snd f) = Some qpre /\ arcN qpre B = Some (fst f)
+  end.
+Fixpoint ok (pend : option Rl) (st : list dframe) : Prop :=
+  match st with
+  | [] => False
+  | f :: rest =>
+    match rest with
+    | [] => frame_ok pend S0 f
+    | _ :: _ => exists R, validR R /\ frame_ok pend R f /\ ok (Some R) rest
+    end
+  end.
+Definition top_ne (st : list dframe) : Prop := match st with f :: _ :: _ => snd f <> [] | _ => True end.
+Definition yields_st (st : list dframe) : list (Lb * T) := concat (rev (map (fun f => yields (snd f)) st)).
+
+Lemma yields_st_cons f st : yields_st (f :: st) = yields_st st ++ yields (snd f).
+Proof. unfold yields_st. simpl. rewrite concat_app. simpl. rewrite app_nil_r. reflexivity. Qed.
+Lemma yields_app a b : yields (a ++ b) = yields a ++ yields b.
+Proof. unfold yields. apply flat_map_app. Qed.
+Lemma run_app : forall ks q k, run q (ks ++ [k]) = match run q ks with Some q1 => run q1 [k] | None => None end.
+Proof.
+  induction ks as [|x ks IH]; intros q k; [simpl; destruct k; [destruct (arcT q a)|destruct (arcN q B)]; reflexivity|].
+  simpl. destruct x as [a y|B kb]; [destruct (arcT q a)|destruct (arcN q B)]; try reflexivity; apply IH.
+Qed.
+Lemma all_wf_app a b : all_wf (a ++ b) <-> all_wf a /\ all_wf b.
+Proof. induction a as [|x a IH]; simpl; [tauto|]. rewrite IH. tauto. Qed.
+
+(* the rule a frame is working on is the rule of its state *)
+Lemma frame_rule pend R f : validR R -> frame_ok pend R f -> rule_of (fst f) = R.
+Proof.
+  intros V [_ H]. destruct pend as [B|].
+  - destruct H as (qpre & Rn & A). rewrite (rule_arcN _ _ _ A), (run_rule _ _ _ Rn). apply rule_start. exact V.
+  - rewrite (run_rule _ _ _ H). apply rule_start. exact V.
+Qed.
+
+(* popping without looking at the next token (what `finish` does at the end of the input) *)
+Inductive popf1 : list frame -> list frame -> Prop :=
+| popf1_intro q ns q2 ns2 rest : final q = true -> popf1 ((q, ns) :: (q2, ns2) :: rest) ((q2, ns2 ++ [close q ns]) :: rest).
+Definition popsf := clos_refl_trans_1n _ popf1.
+Lemma pops_popsf a x y : pops a x y -> popsf x y.
+Proof.
+  intros P. induction P as [x|x y z P1 _ IH]; [apply rt1n_refl|]. econstructor; [|exact IH].
+  inversion P1; subst. constructor. assumption.
+Qed.
+
+Lemma pop1_sound st fr' : ok None st -> top_ne st -> popf1 (erase st) fr' ->
+  exists st', fr' = erase st' /\ ok None st' /\ top_ne st' /\ yields_st st' = yields_st st.
+Proof.
+  intros OK TN P. destruct st as [|[q ks] [|[q2 ks2] rest]]; simpl in P; try (inversion P; fail).
+  inversion P as [q0 ns q20 ns2 rest0 HF E1 E2]; subst. clear P.
+  cbn [ok] in OK. destruct OK as (R & VR & FO & OK2). cbn [top_ne snd] in TN.
+  pose proof (frame_rule _ _ _ VR FO) as RQ. cbn [fst] in RQ.
+  destruct FO as [AW Rn]. cbn [fst snd] in *.
+  assert (WN: wf (DNode R ks)).
+  { apply wf_node. split; [exact VR|split; [exact TN|split; [exists q; split; assumption|exact AW]]]. }
+  exists ((q2, ks2 ++ [DNode R ks]) :: rest). split; [|split; [|split]].
+  - rewrite erase_cons, map_app. cbn [map]. rewrite <- (close_collapse q R ks RQ TN). reflexivity.
+  - (* the node is the nonterminal step that was pending in the frame below *)
+    assert (FO2: forall R2, frame_ok (Some R) R2 (q2, ks2) -> frame_ok None R2 (q2, ks2 ++ [DNode R ks])).
+    { intros R2 [AW2 (qpre & Rn2 & A2)]. cbn [fst snd] in *. split.
+      - cbn [snd]. apply all_wf_app. split; [exact AW2|]. simpl. split; [exact WN|exact I].
+      - cbn [fst snd]. rewrite run_app, Rn2. simpl. rewrite A2. reflexivity. }
+    destruct rest as [|f3 rest]; cbn [ok] in OK2 |- *.
+    + apply FO2. exact OK2.
+    + destruct OK2 as (R2 & VR2 & FO & OK3). exists R2. split; [exact VR2|split; [apply FO2; exact FO|exact OK3]].
+  - destruct rest; cbn [top_ne snd]; [exact I|]. intros E. apply app_eq_nil in E as [_ E]. discriminate.
+  - rewrite !yields_st_cons. cbn [snd]. rewrite yields_app, <- app_assoc. f_equal. f_equal. unfold yields. simpl. rewrite app_nil_r. reflexivity.
+Qed.
+
+Lemma popsf_sound st fr' : ok None st -> top_ne st -> popsf (erase st) fr' ->
+  exists st', fr' = erase st' /\ ok None st' /\ top_ne st' /\ yields_st st' = yields_st st.
+Proof.
+  intros OK TN P. remember (erase st) as fr eqn:E. revert st OK TN E.
+  induction P as [x|x y z P1 P IH]; intros st OK TN E; subst.
+  - exists st. repeat split; assumption.
+  - destruct (pop1_sound _ _ OK TN P1) as (st1 & E1 & OK1 & TN1 & Y1).
+    destruct (IH st1 OK1 TN1 E1) as (st2 & E2 & OK2 & TN2 & Y2).
+    exists st2. split; [exact E2|split; [exact OK2|split; [exact TN2|rewrite Y2; exact Y1]]].
+Qed.
+Lemma pops_sound a st fr' : ok None st -> top_ne st -> pops a (erase st) fr' ->
+  exists st', fr' = erase st' /\ ok None st' /\ top_ne st' /\ yields_st st' = yields_st st.
+Proof. intros OK TN P. eapply popsf_sound; [exact OK|exact TN|eapply pops_popsf; exact P]. Qed.
+
+(* pushing a first chain *)
+Lemma push_chain_sound : forall B a ch, first_chain B a ch -> forall x base, validR B -> base <> [] -> ok (Some B) base ->
+  exists st', push ch x (erase base) = erase st' /\ ok None st' /\ top_ne st' /\ yields_st st' = yields_st base ++ [(a, x)].
+Proof.
+  induction 1 as [B a s1 AT|B C a s ch AN FC IH]; intros x base VB NE OK.
+  - exists ((s1, [DLeaf a x]) :: base). split; [|split; [|split]].
+    + destruct base as [|[qb kb] r]; [contradiction|]. reflexivity.
+    + destruct base as [|fb r]; [contradiction|]. cbn [ok]. exists B. split; [exact VB|split; [|exact OK]].
+      split; [simpl; tauto|]. cbn [fst snd]. simpl. rewrite AT. reflexivity.
+    + destruct base; [contradiction|]. cbn [top_ne snd]. discriminate.
+    + rewrite yields_st_cons. reflexivity.
+  - assert (VC: validR C) by (eapply arcN_valid; exact AN).
+    destruct (IH x ((s, []) :: base) VC ltac:(discriminate)) as (st' & E & OK' & TN' & Y').
+    + destruct base as [|fb r]; [contradiction|]. cbn [ok]. exists B. split; [exact VB|split; [|exact OK]].
+      split; [exact I|]. exists (start B). split; [reflexivity|exact AN].
+    + exists st'. split; [|split; [exact OK'|split; [exact TN'|]]].
+      * cbn [push]. exact E.
+      * rewrite Y', yields_st_cons. cbn [snd]. unfold yields. simpl. rewrite app_nil_r. reflexivity.
+Qed.
+
+Lemma shift_sound a x st fr' : ok None st -> shift a x (erase st) = Some fr' ->
+  exists st', fr' = erase st' /\ ok None st' /\ top_ne st' /\ yields_st st' = yields_st st ++ [(a, x)].
+Proof.
+  intros OK SH. destruct st as [|[q ks] rest]; [discriminate|]. rewrite erase_cons in SH. cbn [shift] in SH.
+  destruct (plans q a) as [[q' ch]|] eqn:PL; [|discriminate]. inversion SH; subst fr'. clear SH.
+  (* the frame with its state moved along the arc *)
+  destruct (plans_sound _ _ _ _ PL) as [[-> AT]|(B & AN & FC)].
+  - exists ((q', ks ++ [DLeaf a x]) :: rest). split; [|split; [|split]].
+    + rewrite erase_cons, map_app. reflexivity.
+    + assert (FO: forall R, frame_ok None R (q, ks) -> frame_ok None R (q', ks ++ [DLeaf a x])).
+      { intros R [AW Rn]. cbn [fst snd] in *. split; [apply all_wf_app; split; [exact AW|simpl; tauto]|].
+        cbn [fst snd]. rewrite run_app, Rn. simpl. rewrite AT. reflexivity. }
+      destruct rest as [|f2 rest]; cbn [ok] in OK |- *; [apply FO; exact OK|].
+      destruct OK as (R & VR & FOK & OK2). exists R. split; [exact VR|split; [apply FO; exact FOK|exact OK2]].
+    + destruct rest; cbn [top_ne snd]; [exact I|]. intros E. apply app_eq_nil in E as [_ E]. discriminate.
+    + rewrite !yields_st_cons. cbn [snd]. rewrite yields_app, app_assoc. reflexivity.
+  - assert (VB: validR B) by (eapply arcN_valid; exact AN).
+    assert (OKB: ok (Some B) ((q', ks) :: rest)).
+    { assert (FO: forall R, frame_ok None R (q, ks) -> frame_ok (Some B) R (q', ks)).
+      { intros R [AW Rn]. cbn [fst snd] in *. split; [exact AW|]. exists q. split; [exact Rn|exact AN]. }
+      destruct rest as [|f2 rest]; cbn [ok] in OK |- *; [apply FO; exact OK|].
+      destruct OK as (R & VR & FOK & OK2). exists R. split; [exact VR|split; [apply FO; exact FOK|exact OK2]]. }
+    destruct (push_chain_sound _ _ _ FC x ((q', ks) :: rest) VB ltac:(discriminate) OKB) as (st' & E & OK' & TN' & Y').
+    exists st'. split; [exact E|split; [exact OK'|split; [exact TN'|]]].
+    rewrite Y', !yields_st_cons. reflexivity.
+Qed.
+
+Lemma feed_sound w st fr' : ok None st -> top_ne st -> feed w (erase st) fr' ->
+  exists st', fr' = erase st' /\ ok None st' /\ top_ne st' /\ yields_st st' = yields_st st ++ w.
+Proof.
+  intros OK TN F. remember (erase st) as fr eqn:E. revert st OK TN E.
+  induction F as [x|tk w x y z ST F IH]; intros st OK TN E; subst.
+  - exists st. rewrite app_nil_r. repeat split; assumption.
+  - inversion ST as [a v s0 s1 s2 PP SH]; subst.
+    destruct (pops_sound _ _ _ OK TN PP) as (st1 & E1 & OK1 & TN1 & Y1). subst s1.
+    destruct (shift_sound _ _ _ _ OK1 SH) as (st2 & E2 & OK2 & TN2 & Y2).
+    destruct (IH st2 OK2 TN2 E2) as (st3 & E3 & OK3 & TN3 & Y3).
+    exists st3. split; [exact E3|split; [exact OK3|split; [exact TN3|]]]. rewrite Y3, Y2, Y1, <- app_assoc. reflexivity.
+Qed.
+
+Theorem sound_f w fr qf ns :
+  feed w [(start S0, [])] fr -> popsf fr [(qf, ns)] -> final qf = true -> w <> [] ->
+  exists kb, wf (DNode S0 kb) /\ yield (DNode S0 kb) = w /\ ns = map collapse kb /\ rule_of qf = S0.
+Proof.
+  intros F P FQ NE.
+  assert (OK0: ok None [(start S0, [])]) by (cbn [ok]; split; [exact I|reflexivity]).
+  destruct (feed_sound w [(start S0, [])] fr OK0 I F) as (st1 & E1 & OK1 & TN1 & Y1). subst fr.
+  destruct (popsf_sound _ _ OK1 TN1 P) as (st2 & E2 & OK2 & TN2 & Y2).
+  destruct st2 as [|[q kb] [|f2 r]]; try discriminate. rewrite erase_cons in E2. inversion E2; subst q ns.
+  cbn [ok] in OK2. destruct OK2 as [AW Rn]. cbn [fst snd] in *.
+  assert (YW: yields kb = w).
+  { rewrite Y1 in Y2. unfold yields_st in Y2. simpl in Y2. rewrite app_nil_r in Y2. exact Y2. }
+  assert (KN: kb <> []) by (intros ->; apply NE; rewrite <- YW; reflexivity).
+  exists kb. split; [|split; [exact YW|split; [reflexivity|]]].
+  - apply wf_node. split; [exact S0_valid|split; [exact KN|split; [exists qf; split; assumption|exact AW]]].
+  - rewrite (run_rule _ _ _ Rn). apply rule_start. exact S0_valid.
+Qed.
+Theorem sound w t qf ns :
+  passes w [(start S0, [])] t [(qf, ns)] -> final qf = true -> w <> [] ->
+  exists kb, wf (DNode S0 kb) /\ yield (DNode S0 kb) = w /\ ns = map collapse kb /\ rule_of qf = S0.
+Proof. intros (fr & F & P) FQ NE. eapply sound_f; [exact F|eapply pops_popsf; exact P|exact FQ|exact NE]. Qed.
+End Sound.
+
 End LL.
 Print Assumptions complete.
+Print Assumptions sound.
